@@ -9,98 +9,101 @@ Open Scope Q_scope.
 Lemma eval_terms_sum m c x : eval_terms m c x == sumn (S m) (fun i => c i * qpow x i).
 Proof. unfold eval_terms. rewrite (fold_left_sum (fun i => c i * qpow x i)), Qplus_0_l. apply lsum_seq. Qed.
 
-(* every leaf coefficient function is 0 above index d *)
-Fixpoint leaves_vanish (d : nat) (g : gf) : Prop :=
+(* every leaf coefficient function is 0 above the last term [cut m] that is summed for it *)
+Fixpoint leaves_within (cut : nat -> nat) (g : gf) : Prop :=
   match g with
-  | Fn c => forall i, (d < i)%nat -> c i == 0
-  | Sum a b | Prod a b => leaves_vanish d a /\ leaves_vanish d b
+  | Fn c m => forall i, (cut m < i)%nat -> c i == 0
+  | Sum a b | Prod a b => leaves_within cut a /\ leaves_within cut b
   end.
 
-(* a bound on the degree of the tree when its leaves have degree <= d *)
-Fixpoint degb (d : nat) (g : gf) : nat :=
+(* a bound on the degree of the tree when each leaf has degree <= cut m *)
+Fixpoint degb (cut : nat -> nat) (g : gf) : nat :=
   match g with
-  | Fn _ => d
-  | Sum a b => Nat.max (degb d a) (degb d b)
-  | Prod a b => (degb d a + degb d b)%nat
+  | Fn _ m => cut m
+  | Sum a b => Nat.max (degb cut a) (degb cut b)
+  | Prod a b => (degb cut a + degb cut b)%nat
   end.
 
-Lemma leaves_vanish_mono d d' g : (d <= d')%nat -> leaves_vanish d g -> leaves_vanish d' g.
+Lemma leaves_within_mono cut cut' g : (forall m, (cut m <= cut' m)%nat) -> leaves_within cut g -> leaves_within cut' g.
 Proof.
   intros Hd. induction g; simpl.
-  - intros H i Hi. apply H. lia.
+  - intros H i Hi. apply H. specialize (Hd m). lia.
   - intros [? ?]; split; auto.
   - intros [? ?]; split; auto.
 Qed.
 
-Lemma coeff_vanish d g : leaves_vanish d g -> forall i, (degb d g < i)%nat -> coeff g i == 0.
+Lemma coeff_vanish cut g : leaves_within cut g -> forall i, (degb cut g < i)%nat -> coeff g i == 0.
 Proof.
-  induction g as [c|a IHa b IHb|a IHa b IHb]; intros H i Hi.
+  induction g as [c m|a IHa b IHb|a IHa b IHb]; intros H i Hi.
   - apply H. exact Hi.
   - destruct H as [Ha Hb]. cbn [degb] in Hi. cbn [coeff]. rewrite IHa, IHb by (assumption || lia). ring.
   - destruct H as [Ha Hb]. cbn [degb] in Hi. rewrite coeff_Prod. apply sumn_zero. intros j Hj.
-    destruct (le_lt_dec j (degb d a)).
+    destruct (le_lt_dec j (degb cut a)).
     + rewrite (IHb Hb (i - j)%nat) by lia. ring.
     + rewrite (IHa Ha j) by lia. ring.
 Qed.
 
-(* evaluate() with the leaves summed to term m >= d is the polynomial Σ coeff_i x^i *)
-Theorem eval_to_poly d m g x : leaves_vanish d g -> (d <= m)%nat ->
-  forall N, (degb d g <= N)%nat -> eval_to m g x == sumn (S N) (fun i => coeff g i * qpow x i).
+(* evaluate() with every leaf summed as far as its coefficients go is the polynomial Σ coeff_i x^i *)
+Theorem eval_cut_poly cut g x : leaves_within cut g ->
+  forall N, (degb cut g <= N)%nat -> eval_cut cut g x == sumn (S N) (fun i => coeff g i * qpow x i).
 Proof.
-  intros H Hm. induction g as [c|a IHa b IHb|a IHa b IHb]; intros N HN.
-  - cbn [eval_to coeff degb] in *. rewrite eval_terms_sum.
-    rewrite (sumn_extend (S d) (S m)), (sumn_extend (S d) (S N)); try lia; try reflexivity.
-    + intros i Hi. rewrite (H i) by lia. ring.
-    + intros i Hi. rewrite (H i) by lia. ring.
-  - destruct H as [Ha Hb]. cbn [degb] in HN. cbn [eval_to coeff].
+  intros H. induction g as [c m|a IHa b IHb|a IHa b IHb]; intros N HN.
+  - cbn [eval_cut coeff degb] in *. rewrite eval_terms_sum.
+    symmetry. apply (sumn_extend (S (cut m)) (S N)) ; [lia|].
+    intros i Hi. rewrite (H i) by lia. ring.
+  - destruct H as [Ha Hb]. cbn [degb] in HN. cbn [eval_cut coeff].
     rewrite (IHa Ha N), (IHb Hb N) by lia. rewrite <- sumn_add. apply sumn_ext. intros; ring.
-  - destruct H as [Ha Hb]. cbn [degb] in HN. cbn [eval_to].
+  - destruct H as [Ha Hb]. cbn [degb] in HN. cbn [eval_cut].
     rewrite (IHa Ha N), (IHb Hb N) by lia.
-    rewrite (poly_mul_sum (coeff a) (coeff b) x (degb d a) (degb d b) N); [| apply coeff_vanish; assumption | apply coeff_vanish; assumption | exact HN].
+    rewrite (poly_mul_sum (coeff a) (coeff b) x (degb cut a) (degb cut b) N); [| apply coeff_vanish; assumption | apply coeff_vanish; assumption | exact HN].
     apply sumn_ext. intros n _. rewrite coeff_Prod. reflexivity.
 Qed.
 
-(* the cut-off of the loop does not matter once it is past the leaves' degree *)
-Theorem eval_to_cutoff d m m' g x : leaves_vanish d g -> (d <= m)%nat -> (d <= m')%nat -> eval_to m g x == eval_to m' g x.
+(* where the loops stop does not matter once they are past the leaves' degrees *)
+Theorem eval_cut_indep cut cut' g x : leaves_within cut g -> leaves_within cut' g -> eval_cut cut g x == eval_cut cut' g x.
 Proof.
-  intros H Hm Hm'.
-  rewrite (eval_to_poly d m g x H Hm (degb d g) (le_n _)), (eval_to_poly d m' g x H Hm' (degb d g) (le_n _)). reflexivity.
+  intros H H'. set (N := Nat.max (degb cut g) (degb cut' g)).
+  rewrite (eval_cut_poly cut g x H N), (eval_cut_poly cut' g x H' N) by (unfold N; lia). reflexivity.
 Qed.
 
 (* ------------------------------------------------------------ preservation *)
 
-Lemma scale_vanish d n g : leaves_vanish d g -> leaves_vanish d (scale n g).
+Lemma scale_within cut n g : leaves_within cut g -> leaves_within cut (scale n g).
 Proof.
   induction g; simpl.
   - intros H i Hi. rewrite H by exact Hi. ring.
   - intros [? ?]; split; auto.
   - intros [? ?]; split; auto.
 Qed.
-Lemma scale_degb d n g : degb d (scale n g) = degb d g.
+Lemma scale_degb cut n g : degb cut (scale n g) = degb cut g.
 Proof. induction g; simpl; congruence. Qed.
 
-Lemma deriv_vanish_degb d k g : leaves_vanish d g -> leaves_vanish d (deriv k g) /\ (degb d (deriv k g) <= degb d g)%nat.
+Lemma deriv_within_degb cut k g : leaves_within cut g -> leaves_within cut (deriv k g) /\ (degb cut (deriv k g) <= degb cut g)%nat.
 Proof.
-  apply (deriv_rel_ind (fun k g r => leaves_vanish d g -> leaves_vanish d r /\ (degb d r <= degb d g)%nat)); clear k g.
-  - intros k c H. split; [|reflexivity]. intros i Hi. rewrite dcoef_ffq, (H (i + k)%nat) by lia. ring.
-  - intros k a b a' b' IHa IHb [Ha Hb]. destruct (IHa Ha), (IHb Hb). cbn [leaves_vanish degb]. split; [split; assumption | lia].
+  apply (deriv_rel_ind (fun k g r => leaves_within cut g -> leaves_within cut r /\ (degb cut r <= degb cut g)%nat)); clear k g.
+  - intros k c m H. split; [|reflexivity]. intros i Hi. rewrite dcoef_ffq, (H (i + k)%nat) by lia. ring.
+  - intros k a b a' b' IHa IHb [Ha Hb]. destruct (IHa Ha), (IHb Hb). cbn [leaves_within degb]. split; [split; assumption | lia].
   - intros a b H. split; [exact H | reflexivity].
   - intros k a b a1 b1 r IHa IHb IHr [Ha Hb]. destruct (IHa Ha) as [Va Da], (IHb Hb) as [Vb Db].
-    destruct IHr as [Vr Dr]; [cbn [leaves_vanish]; tauto|]. split; [exact Vr|].
+    destruct IHr as [Vr Dr]; [cbn [leaves_within]; tauto|]. split; [exact Vr|].
     cbn [degb] in *. lia.
 Qed.
 
-Lemma from_coeffs_vanish cs d : (length cs <= S d)%nat -> leaves_vanish d (from_coeffs cs).
-Proof. intros H i Hi. simpl. rewrite nth_overflow by lia. reflexivity. Qed.
+(* a coefficient list is within its own _maxTerm = len(cs), whatever its length *)
+Lemma from_coeffs_within cs cut : (forall m, (pred (length cs) <= cut m)%nat) -> leaves_within cut (from_coeffs cs).
+Proof. intros H i Hi. simpl. specialize (H (length cs)). rewrite nth_overflow by lia. reflexivity. Qed.
+
+Lemma from_function_within cs cut : (forall m, (pred (length cs) <= cut m)%nat) -> leaves_within cut (from_function (fun i => nth i cs 0)).
+Proof. intros H i Hi. simpl. specialize (H max_term). rewrite nth_overflow by lia. reflexivity. Qed.
 
 (* ------------------------------------------------------------ evaluation of derivatives *)
 
-Theorem eval_deriv d m k g x : leaves_vanish d g -> (d <= m)%nat ->
-  forall N, (degb d g <= N)%nat ->
-  eval_to m (deriv k g) x == sumn (S N) (fun i => ffq i k * coeff g (i + k)%nat * qpow x i).
+Theorem eval_deriv cut k g x : leaves_within cut g ->
+  forall N, (degb cut g <= N)%nat ->
+  eval_cut cut (deriv k g) x == sumn (S N) (fun i => ffq i k * coeff g (i + k)%nat * qpow x i).
 Proof.
-  intros H Hm N HN. destruct (deriv_vanish_degb d k g H) as [V D].
-  rewrite (eval_to_poly d m (deriv k g) x V Hm N) by lia.
+  intros H N HN. destruct (deriv_within_degb cut k g H) as [V D].
+  rewrite (eval_cut_poly cut (deriv k g) x V N) by lia.
   apply sumn_ext. intros i _. rewrite coeff_deriv. reflexivity.
 Qed.
 
@@ -109,7 +112,7 @@ Qed.
 (* the reference: exact polynomial arithmetic on coefficient sequences *)
 Fixpoint sem (e : expr) : nat -> Q :=
   match e with
-  | ECoeffs cs => fun i => nth i cs 0
+  | ECoeffs cs | EFunc cs => fun i => nth i cs 0
   | EAdd a b => fun i => sem a i + sem b i
   | EAddN a n => fun i => sem a i + (if (i =? 0)%nat then n else 0)
   | ESub a b => fun i => sem a i - sem b i
@@ -123,7 +126,7 @@ Fixpoint sem (e : expr) : nat -> Q :=
 (* some division in the program is by zero *)
 Fixpoint divides_by_zero (e : expr) : Prop :=
   match e with
-  | ECoeffs _ => False
+  | ECoeffs _ | EFunc _ => False
   | EAdd a b | ESub a b | EMul a b => divides_by_zero a \/ divides_by_zero b
   | EAddN a _ | ESubN a _ | EMulN a _ | EDx a _ => divides_by_zero a
   | EDiv a n => divides_by_zero a \/ n == 0
@@ -132,6 +135,7 @@ Fixpoint divides_by_zero (e : expr) : Prop :=
 Lemma build_None e : build e = None <-> divides_by_zero e.
 Proof.
   induction e; cbn [build divides_by_zero].
+  - split; [discriminate | tauto].
   - split; [discriminate | tauto].
   - destruct (build e1), (build e2); cbn [obind]; intuition (try discriminate; auto).
   - destruct (build e); cbn [obind]; intuition (try discriminate; auto).
@@ -148,31 +152,53 @@ Proof.
   - destruct (build e); cbn [obind]; intuition (try discriminate; auto).
 Qed.
 
-(* the objects that programs build: leaves vanish from index max_len e on, i.e. above max_len e - 1 *)
-Lemma build_vanish e : forall g, build e = Some g -> leaves_vanish (pred (max_len e)) g.
+(* the objects that programs build: every leaf vanishes from index max_len e on ... *)
+Lemma build_within_len e : forall g, build e = Some g -> leaves_within (fun _ => pred (max_len e)) g.
 Proof.
   induction e; intros g; cbn [build max_len].
-  - intros [= <-]. apply from_coeffs_vanish. lia.
+  - intros [= <-]. apply from_coeffs_within. intros _. lia.
+  - intros [= <-]. apply from_function_within. intros _. lia.
   - destruct (build e1) as [f1|], (build e2) as [f2|]; cbn [obind]; try discriminate. intros [= <-].
-    split; [apply (leaves_vanish_mono (pred (max_len e1))) | apply (leaves_vanish_mono (pred (max_len e2)))]; auto; lia.
+    split; [apply (leaves_within_mono (fun _ => pred (max_len e1))) | apply (leaves_within_mono (fun _ => pred (max_len e2)))]; auto; intros; lia.
   - destruct (build e) as [f|]; cbn [obind]; try discriminate. intros [= <-].
-    split; [apply (leaves_vanish_mono (pred (max_len e))); auto; lia | apply from_coeffs_vanish; simpl; lia].
+    split; [apply (leaves_within_mono (fun _ => pred (max_len e))); auto; intros; lia | apply from_coeffs_within; intros; simpl; lia].
   - destruct (build e1) as [f1|], (build e2) as [f2|]; cbn [obind]; try discriminate. intros [= <-].
-    split; [apply (leaves_vanish_mono (pred (max_len e1))) | apply scale_vanish, (leaves_vanish_mono (pred (max_len e2)))]; auto; lia.
+    split; [apply (leaves_within_mono (fun _ => pred (max_len e1))) | apply scale_within, (leaves_within_mono (fun _ => pred (max_len e2)))]; auto; intros; lia.
   - destruct (build e) as [f|]; cbn [obind]; try discriminate. intros [= <-].
-    split; [apply (leaves_vanish_mono (pred (max_len e))); auto; lia | apply from_coeffs_vanish; simpl; lia].
+    split; [apply (leaves_within_mono (fun _ => pred (max_len e))); auto; intros; lia | apply from_coeffs_within; intros; simpl; lia].
   - destruct (build e1) as [f1|], (build e2) as [f2|]; cbn [obind]; try discriminate. intros [= <-].
-    split; [apply (leaves_vanish_mono (pred (max_len e1))) | apply (leaves_vanish_mono (pred (max_len e2)))]; auto; lia.
-  - destruct (build e) as [f|]; cbn [obind]; try discriminate. intros [= <-]. apply scale_vanish; auto.
+    split; [apply (leaves_within_mono (fun _ => pred (max_len e1))) | apply (leaves_within_mono (fun _ => pred (max_len e2)))]; auto; intros; lia.
+  - destruct (build e) as [f|]; cbn [obind]; try discriminate. intros [= <-]. apply scale_within; auto.
   - destruct (build e) as [f|]; cbn [obind]; try discriminate. unfold gdiv. destruct (Qeq_bool n 0); [discriminate|].
-    intros [= <-]. apply scale_vanish; auto.
-  - destruct (build e) as [f|]; cbn [obind]; try discriminate. intros [= <-]. apply deriv_vanish_degb; auto.
+    intros [= <-]. apply scale_within; auto.
+  - destruct (build e) as [f|]; cbn [obind]; try discriminate. intros [= <-]. apply deriv_within_degb; auto.
+Qed.
+
+(* ... and is within its own _maxTerm: lists always, coefficient functions when they end by term 300 *)
+Lemma build_within_own e : funcs_short e -> forall g, build e = Some g -> leaves_within (fun m => m) g.
+Proof.
+  induction e; intros Hs g; cbn [build funcs_short] in *.
+  - intros [= <-]. intros i Hi. simpl. rewrite nth_overflow by lia. reflexivity.
+  - intros [= <-]. intros i Hi. simpl. rewrite nth_overflow by lia. reflexivity.
+  - destruct Hs. destruct (build e1) as [f1|], (build e2) as [f2|]; cbn [obind]; try discriminate. intros [= <-]. split; auto.
+  - destruct (build e) as [f|]; cbn [obind]; try discriminate. intros [= <-].
+    split; [auto|]. apply from_coeffs_within. intros; simpl; lia.
+  - destruct Hs. destruct (build e1) as [f1|], (build e2) as [f2|]; cbn [obind]; try discriminate. intros [= <-].
+    split; [auto | apply scale_within; auto].
+  - destruct (build e) as [f|]; cbn [obind]; try discriminate. intros [= <-].
+    split; [auto|]. apply from_coeffs_within. intros; simpl; lia.
+  - destruct Hs. destruct (build e1) as [f1|], (build e2) as [f2|]; cbn [obind]; try discriminate. intros [= <-]. split; auto.
+  - destruct (build e) as [f|]; cbn [obind]; try discriminate. intros [= <-]. apply scale_within; auto.
+  - destruct (build e) as [f|]; cbn [obind]; try discriminate. unfold gdiv. destruct (Qeq_bool n 0); [discriminate|].
+    intros [= <-]. apply scale_within; auto.
+  - destruct (build e) as [f|]; cbn [obind]; try discriminate. intros [= <-]. apply deriv_within_degb; auto.
 Qed.
 
 (* coefficients of what a program builds = the reference polynomial arithmetic *)
 Theorem build_coeff e : forall g, build e = Some g -> forall i, coeff g i == sem e i.
 Proof.
   induction e; intros g; cbn [build sem].
+  - intros [= <-] i. reflexivity.
   - intros [= <-] i. reflexivity.
   - destruct (build e1) as [f1|], (build e2) as [f2|]; cbn [obind]; try discriminate. intros [= <-] i.
     rewrite coeff_gadd, (IHe1 _ eq_refl), (IHe2 _ eq_refl). reflexivity.
@@ -193,19 +219,26 @@ Proof.
 Qed.
 
 (* value of what a program builds = value of the reference polynomial *)
-Theorem build_eval e g x : build e = Some g -> (max_len e <= S max_term)%nat ->
-  forall N, (degb max_term g <= N)%nat -> eval g x == sumn (S N) (fun i => sem e i * qpow x i).
+Theorem build_eval e g x : build e = Some g -> funcs_short e ->
+  forall N, (degb (fun m => m) g <= N)%nat -> eval g x == sumn (S N) (fun i => sem e i * qpow x i).
 Proof.
-  intros Hb Hl N HN. unfold eval.
-  assert (V : leaves_vanish max_term g) by (apply (leaves_vanish_mono (pred (max_len e))); [lia | apply build_vanish; exact Hb]).
-  rewrite (eval_to_poly max_term max_term g x V (le_n _) N HN).
+  intros Hb Hs N HN. unfold eval.
+  rewrite (eval_cut_poly (fun m => m) g x (build_within_own e Hs g Hb) N HN).
   apply sumn_ext. intros i _. rewrite (build_coeff e g Hb). reflexivity.
 Qed.
 
-(* what tie B executes is [eval] *)
-Theorem tie_eval_is_eval e g x : build e = Some g -> eval_to (Nat.min (max_len e) max_term) g x == eval g x.
+(* what tie B executes (every leaf summed to the longest coefficient list) is [eval] ... *)
+Theorem tie_eval_is_eval e g x : build e = Some g -> funcs_short e -> eval_to (max_len e) g x == eval g x.
 Proof.
-  intros Hb. unfold eval. destruct (le_lt_dec (max_len e) max_term) as [Hl|Hl].
-  - rewrite Nat.min_l by exact Hl. apply (eval_to_cutoff (pred (max_len e))); [apply build_vanish; exact Hb | lia | lia].
-  - rewrite Nat.min_r by lia. reflexivity.
+  intros Hb Hs. unfold eval, eval_to. apply eval_cut_indep.
+  - apply (leaves_within_mono (fun _ => pred (max_len e))); [intros; lia | apply build_within_len; exact Hb].
+  - apply (build_within_own e Hs g Hb).
+Qed.
+
+(* ... and is also what the pinned tree computed (every leaf summed to term 300) for lists of <= 301 entries *)
+Theorem tie_eval_is_eval_300 e g x : build e = Some g -> (max_len e <= S max_term)%nat -> eval_to (max_len e) g x == eval_to max_term g x.
+Proof.
+  intros Hb Hl. unfold eval_to. apply eval_cut_indep.
+  - apply (leaves_within_mono (fun _ => pred (max_len e))); [intros; lia | apply build_within_len; exact Hb].
+  - apply (leaves_within_mono (fun _ => pred (max_len e))); [intros; lia | apply build_within_len; exact Hb].
 Qed.
